@@ -1,6 +1,6 @@
 """This plugin contains realization filters that are installed by default."""
 
-from typing import Annotated
+from typing import Annotated, Final
 
 import numpy as np
 from numpy.typing import NDArray
@@ -11,6 +11,8 @@ from ropt.enums import OptimizerExitCode
 from ropt.exceptions import ConfigError, OptimizationAborted
 
 from .base import RealizationFilter, RealizationFilterPlugin
+
+_CVAR_REMAINDER_TOLERANCE: Final = 1e-14
 
 
 class _ConfigBaseModel(BaseModel):
@@ -322,11 +324,17 @@ def _get_cvar_weights_from_percentile(
     # nan values are sorted to the end, drop them:
     indices = indices[: np.count_nonzero(~failed_realizations)]
 
+    weights = np.zeros(values.size)
+    if indices.size == 0:
+        return weights
+
     p_max = 1.0 / indices.size
     n_var = int(percentile * indices.size)
+    # Rounding may leave a tiny, possibly negative, remainder instead of zero:
     p_var = percentile - n_var * p_max
+    if n_var > 0 and p_var < _CVAR_REMAINDER_TOLERANCE:
+        p_var = 0.0
 
-    weights = np.zeros(values.size)
     weights[indices[:n_var]] = p_max
     if n_var < indices.size:
         weights[indices[n_var]] = p_var
